@@ -169,8 +169,10 @@ def fam_partial_at_late(as_object):
                       functions=["Partial.__init__", "Partial.at", "partial._initial_synthetic_partial", "variable.get_variable_name"])
 
 
-def fam_derivative_at_late(number):
-    nm = f"Derivative.at[late,{'number' if number else 'Point'}]"
+def fam_derivative_at_late(number, kind="late"):
+    """kind: late (a fresh lazy object), early (compute_early=True), switched (a lazy object on
+    which as_expression() was called before: it now answers through the stored symbolic partial)."""
+    nm = f"Derivative.at[{kind},{'number' if number else 'Point'}]"
 
     def run(prog, tier):
         def setup(I):
@@ -184,11 +186,13 @@ def fam_derivative_at_late(number):
             I.ghost.setdefault("ambient_names", [])
 
             def thunk():
-                dv = I.instantiate(prog.classes["Derivative"], [e], {})
+                dv = I.instantiate(prog.classes["Derivative"], [e], {"compute_early": True} if kind == "early" else {})
                 I.ghost["derivative"] = dv
                 x = I.bi.key_term(dv.fields["_variable_name"])
                 I.ghost["x"] = x
                 I.ghost["ambient_names"].append(x)
+                if kind == "switched":
+                    I.call(I.getattr_(dv, "as_expression"), [])
                 return I.call(I.getattr_(dv, "at"), [arg])
             return thunk
 
@@ -217,9 +221,10 @@ def fam_derivative_at_late(number):
             else:
                 pt = g["arg"]
             route_post(I, res, emit, e, pt, x)
-        return H.run_family(prog, nm, setup, post)
-    return FamilySpec(nm, ["C03", "C06", "C07", "C14", "C17", "C09"], run,
-                      functions=["Derivative.__init__", "Derivative.at", "Partial.at", "expression.get_the_single_variable_name"])
+        return H.run_family(prog, nm, setup, post, force_contract=() if kind == "late" else ("_normalize",))
+    return FamilySpec(nm, (["C03"] if kind == "late" else ["C05"]) + ["C06", "C07", "C14", "C17", "C09"], run,
+                      functions=["Derivative.__init__", "Derivative.at", "Derivative.as_expression", "Partial.at",
+                                 "expression.get_the_single_variable_name"])
 
 
 def fam_numeric_partials_entry():
@@ -324,6 +329,8 @@ def specs(prog, tier):
     for b in (False, True):
         out.append(fam_partial_at_late(b))
         out.append(fam_derivative_at_late(b))
+        out.append(fam_derivative_at_late(b, "early"))
+        out.append(fam_derivative_at_late(b, "switched"))
         out.append(fam_located_differential(b))
     out.append(fam_numeric_partials_entry())
     for r in ("at.component", "component_at", "component.at"):
